@@ -45,6 +45,9 @@ def _spell(rng, rel):
     weights = [(6, rel), (3, "./" + rel)]
     if d:
         weights += [(2, d + "/./" + b), (1, d + "//" + b), (2, d + "/../" + posixpath.basename(d) + "/" + b)]
+        # goes above the starting point and comes back: escapes the output directory although it does not start with ..
+        up = "/".join([".."] * (len(d.split("/")) + 1))
+        weights += [(2, d + "/" + up + "/proj/" + rel)]
     weights.append((2, BOXTOKEN + "/proj/" + rel))
     return rng.weighted(weights)
 
@@ -77,7 +80,7 @@ def gen_case(rng, params, index):
     def gen_step(fault):
         spelled = [_spell(rng, s) for s in srcs]
         if O is not None and (fault["mode"] != "none" or rng.chance(0.6)):
-            # keep most -O invocations acceptable (escaping spellings are refused before any I/O)
+            # keep most -O invocations acceptable (escaping spellings are refused before any I/O; contained '..' may be)
             spelled = [rng.choice([s, "./" + s] + ([posixpath.dirname(s) + "/./" + posixpath.basename(s)] if "/" in s else [])) for s in srcs]
         if rng.chance(0.3):
             rng.shuffle(spelled)
